@@ -14,7 +14,7 @@ NOT decided: cstl_hash_mul in [0, m) -- a statement about single-precision round
 """
 from ..facts import Prover, _k
 from ..ir import const_int, resolve_addr
-from ..hashmodel import same_value_loads
+from ..hashmodel import same_value_loads, reaching_store_value
 
 HASH_FTY = 'i64 (i64, i64)'
 
@@ -112,12 +112,19 @@ def run(m, rep, tier):
             if idx in checked:
                 continue
             # sweep index: must be proven below a bucket count loaded from the table
-            ok = False
-            for (op, x, y) in pv.fc.block_facts(g.block):
-                if op == 'ult' and (x == idx or same_value_loads(f, x, idx)):
-                    yi = f.get(y)
-                    if yi is not None and yi.op == 'load' and resolve_addr(f, yi.o[0]).path in ('bucket.count', 'bucket.rh.count'):
-                        ok = True
+            def below(facts, pred=None):
+                ii = f.get(idx) if isinstance(idx, str) else None
+                stored = reaching_store_value(f, ii, pred) if (ii is not None and ii.op == 'load') else None
+                for (op, x, y) in facts:
+                    if op == 'ult' and (x == idx or same_value_loads(f, x, idx) or (stored is not None and x == stored)):
+                        yi = f.get(y)
+                        if yi is not None and yi.op == 'load' and resolve_addr(f, yi.o[0]).path in ('bucket.count', 'bucket.rh.count'):
+                            return True
+                return False
+            ok = below(pv.fc.block_facts(g.block))
+            if not ok and len(g.block.pred) >= 2:
+                # a do/while body: entered from its guard and from its own loop test, each with its own reads of the index
+                ok = all(below(pv.fc.edge_facts(p, g.block), p) for p in g.block.pred)
             if not ok:
                 bad.append('bucket array subscript at %s uses %s, which is neither a checked hash result nor below a bucket count' % (g.loc(), f.vname(idx)))
         if not calls:
